@@ -266,6 +266,9 @@ func (g *seqGen) memoHunt(rounds int) {
 	r, m := g.r, g.e.Model
 	for k := 0; k < rounds; k++ {
 		l := r.Intn(ref.NLang)
+		if r.Intn(5) == 0 {
+			l = ref.Japanese // the one language whose sentences are not in NFKD form as generated
+		}
 		l2 := (l + 1 + r.Intn(ref.NLang-1)) % ref.NLang
 		if l <= 1 && r.Intn(2) == 0 {
 			l2 = 1 - l // the two Chinese lists share 1275 words
@@ -274,6 +277,7 @@ func (g *seqGen) memoHunt(rounds int) {
 		w := m.Words(ent, l)
 		s := strings.Join(w, " ")
 		wide := strings.Join(w, "\u3000")
+		own := m.Enc(ent, l) // what the generators return for this entropy
 		bad := append([]string(nil), w...)
 		bad[len(bad)-1] = m.List[l][m.Index[l][bad[len(bad)-1]]^1]
 		bad2 := append([]string(nil), w...)
@@ -297,6 +301,16 @@ func (g *seqGen) memoHunt(rounds int) {
 			{Fn: "enc", L: int64(l), E: hx(ent), Arena: true, Keep: true},
 			{Fn: "enc", L: int64(l), E: hx(append([]byte{ent[0] ^ 0x80}, ent[1:]...)), Arena: true, Keep: true},
 			{Fn: "enc", L: int64(l2), E: hx(ent), Arena: true, Keep: true},
+			// a sentence is generated and then handed, exactly as generated, to the other
+			// functions (by either generator; then once more after another generation)
+			{Fn: "enc", L: int64(l), E: hx(ent), Keep: true},
+			{Fn: "seed", S: hxs(own), P: hxs("p"), Keep: true},
+			{Fn: "chk", L: int64(l), S: hxs(own)},
+			{Fn: "new", L: int64(l), N: int64(len(w)), Src: &plan.Src{Data: hx(ent)}, Keep: true},
+			{Fn: "seed", S: hxs(own), P: hxs("\uff50\u00e9"), Keep: true},
+			{Fn: "val", L: int64(l), S: hxs(own)},
+			{Fn: "enc", L: int64(l2), E: hx(ent), Keep: true},
+			{Fn: "seed", S: hxs(own), P: hxs("p"), Keep: true},
 			// rejected sentences in spellings that need normalising (each error path), then
 			// seeds where both components need normalising, next to their NFKD spellings
 			{Fn: "chk", L: int64(l), S: hxs(wide + "\u3000" + w[0])},
